@@ -65,6 +65,11 @@ class Eval:
             if name in ("min", "max") and len(args) == 2:
                 x, y = self.key(args[0]), self.key(args[1])
                 return min(x, y) if name == "min" else max(x, y)
+            if name in ("Shr", "Shl", "ShrUnchecked", "ShlUnchecked") and len(args) == 2:
+                x, y = self.key(args[0]), self.key(args[1])
+                if x < 0 or y < 0 or y > 62:
+                    raise ErrPath()
+                return x >> y if name.startswith("Shr") else x << y
             if name == "abs_diff" and len(args) == 2:
                 return abs(self.key(args[0]) - self.key(args[1]))
             if name == "saturating_sub" and len(args) == 2:
